@@ -59,6 +59,9 @@ def _case(draw):
     Q = [draw(_vec(dim, False)) for _ in range(draw(st.integers(1, 4)))]
     if draw(st.booleans()):
         Q[0] = list(X[0])
+    if draw(st.booleans()):
+        # an outlier query far from every training sample, followed by ordinary ones (in-between points)
+        Q = [[v + 500.0 for v in Q[0]]] + Q + [[(a + b) / 2 for a, b in zip(X[0], X[-1])], [(a + 3 * b) / 4 for a, b in zip(X[0], X[1])]]
     names = R_METRICS if signed else M.NAMES
     ev = st.tuples(st.just("eval"), st.sampled_from(names), st.integers(0, nv - 1), st.integers(0, nv - 1)).map(list)
     shifted = [n_ for n_ in names if M.shifted(n_)]
@@ -77,7 +80,7 @@ def _case(draw):
     if draw(st.booleans()):
         # a compact history: fit, fit the same kind of model on other data, fit again on the pooled data
         k_, m_ = draw(st.sampled_from(fk)), draw(st.sampled_from(fm))
-        ops = ops + [["fit", k_, m_], ["fit_other", k_, m_, draw(st.sampled_from([3.0, 10.0, 0.25]))], ["fit", k_, m_]]
+        ops = ops + [["fit", k_, m_], ["fit_other", k_, m_, draw(st.sampled_from([3.0, 10.0, 0.25]))], ["fit", k_, m_], ["predict"]]
     if draw(st.booleans()) and ops:
         # replay an earlier evaluation at the end: same key after whatever happened in between
         evs = [o for o in ops if o[0] == "eval"]
@@ -198,6 +201,9 @@ def check_case(case):
                 st_.pop("relevant")
                 pr_ = _predict(model, A)
                 st_.pop("relevant", None)
+                st2_ = models.node_state(model)
+                for f in st_:
+                    require(repr(st_[f]) == repr(st2_[f]), "predict_leaves_model_unchanged", lambda: "field %s of the freshly fitted %s model changed during its first predict: %r -> %r" % (f, op[1], st_[f], st2_[f]))
                 key = ("fit", op[1], op[2])
                 if key in fit_memo:
                     st0, pr0, o0 = fit_memo[key]
@@ -216,7 +222,14 @@ def check_case(case):
             elif op[0] == "predict":
                 if model is None:
                     model = _fit("sup", "euclidean", A)
-                _predict(model, A)
+                st_before = models.node_state(model)
+                p_first = _predict(model, A)
+                p_again = _predict(model, A)
+                st_after = models.node_state(model)
+                for f in st_before:
+                    if f != "relevant":
+                        require(repr(st_before[f]) == repr(st_after[f]), "predict_leaves_model_unchanged", lambda: "field %s of the fitted model changed during predict: %r -> %r" % (f, st_before[f], st_after[f]))
+                require(p_first == p_again, "predict_twice_identical", lambda: "the same fitted model predicted %r, then %r, for the same query matrix (history %r)" % (p_first, p_again, case["ops"][: oi + 1]))
                 touched_between |= seen_keys
             elif op[0] == "get_distances":
                 if model is None:
